@@ -337,10 +337,10 @@ fn judge(
     impl_branch: &dyn Fn(u32) -> bool,
 ) -> Verdict {
     let len = spec.line.len() - 1;
+    // `phantom` (the piece after a final newline) is judged like every other piece: the property
+    // as C16_phantom_line states it – an empty source line numbered one past the last real line
+    let _ = phantom;
     for k in keys {
-        if Some(k) == phantom {
-            continue;
-        }
         let n = k as usize;
         let inside = n >= 1 && n <= len;
         let want_l = inside && spec.line[n];
@@ -388,9 +388,13 @@ fn judge(
 }
 
 /// The empty piece after the final LF (or the single empty piece of an empty file) is a "line"
-/// for `split('\n')` and for the model, but not a source line: no coverage can belong to it, so
-/// the property does not say whether a key with that number is removed (don't care). A change of
-/// the code there (e.g. to `str::lines`) is a broken tie, not a violation.
+/// for `split('\n')` and for the model, but not a line of the source as every other reader counts
+/// them. `FileFilter::create` treats it as an EMPTY SOURCE LINE numbered one past the last real line
+/// (Props/C16.lean `C16_phantom_line`): a key with that number is removed iff a marker matches the
+/// empty string or a region is left open at the end of the text. The oracle says exactly that (the
+/// piece is part of `bs`, so `spec_of` already computes it); a change of the code there (e.g. to
+/// `str::lines`) is an oracle failure. Whether removing such a key is itself a defect is the
+/// finding candidate C16-line-after-final-newline (see `observe_line_after_final_newline`).
 fn phantom_line(text: &[u8]) -> Option<u32> {
     if text.is_empty() || text.last() == Some(&b'\n') {
         Some(split_lines(text).len() as u32)
@@ -697,6 +701,7 @@ fn evaluate(rep: &mut Report, ctx: &Ctx, cases: &[Case], tag: &str) {
         }
     }
     let model_out = run_model_named("gm_c16", &reqs, &rep.workdir, tag);
+    src_tie(rep, cases, &create_obs, tag);
 
     // ---- property oracle on every case (independent of the model) ----------------------------
     let mut verdicts: Vec<Verdict> = Vec::with_capacity(cases.len());
@@ -845,6 +850,31 @@ fn evaluate(rep: &mut Report, ctx: &Ctx, cases: &[Case], tag: &str) {
                     rep.count("scenario.empty_piece_after_final_newline_in_region_or_marked");
                 }
             }
+            // the last real line, by the way the text ends
+            {
+                let ending = if t.ends_with(b"\r\n") {
+                    "crlf"
+                } else if t.ends_with(b"\n") {
+                    "lf"
+                } else if t.ends_with(b"\r") {
+                    "lone_cr"
+                } else {
+                    "none"
+                };
+                let last_real = if phantom.is_some() { n.saturating_sub(1) } else { n };
+                if last_real >= 1 {
+                    let j = last_real - 1;
+                    if (0..6).any(|k| eff(j, k)) {
+                        rep.count(&format!("lastline.marker.final_eol_{}", ending));
+                    }
+                    if spec.in_line_region[last_real] || spec.in_br_region[last_real] {
+                        rep.count(&format!("lastline.region_open_at_eof.final_eol_{}", ending));
+                    }
+                    if spec.line[last_real] || spec.branch[last_real] {
+                        rep.count(&format!("lastline.excluded.final_eol_{}", ending));
+                    }
+                }
+            }
             if (1..=n).any(|j| spec.line_marker[j] && spec.br_marker[j]) {
                 rep.count("scenario.both_single_markers_on_one_line");
             }
@@ -912,6 +942,85 @@ fn evaluate(rep: &mut Report, ctx: &Ctx, cases: &[Case], tag: &str) {
                 cj,
             );
         }
+    }
+}
+
+/// Line splitting is part of the model (`splitLF`, `stripCR`, `realLines`, `createSrc`): (a) the
+/// model's pieces of every text against this harness' `split_lines` (whose pieces feed the match
+/// bits) and `str::lines().count()`; (b) for the two pattern sets whose regexes are plain literals,
+/// the model computing the whole filter list from the text (`ffsrc`) against the real
+/// `FileFilter::create`.
+fn src_tie(rep: &mut Report, cases: &[Case], create_obs: &[CreateObs], tag: &str) {
+    let mut reqs = vec![];
+    let mut want = vec![];
+    let mut owner = vec![];
+    for (i, c) in cases.iter().enumerate() {
+        if c.kind != SrcKind::Text {
+            continue;
+        }
+        let pieces: Vec<String> = split_lines(&c.text).iter().map(|p| format!("x{}", hex(p))).collect();
+        let real = std::str::from_utf8(&c.text).map(|t| t.lines().count()).unwrap_or(0);
+        reqs.push(format!("fflines x{}", hex(&c.text)));
+        want.push(format!("{} {}", pieces.join(","), real));
+        owner.push((i, "fflines"));
+        if c.patset == 0 || c.patset == 2 {
+            let ps = &PATSETS[c.patset];
+            let lits: Vec<String> = ps.pats.iter().map(|p| format!("x{}", hex(p.as_bytes()))).collect();
+            reqs.push(format!("ffsrc {} {} x{}", optstr(&c.opts), lits.join(" "), hex(&c.text)));
+            want.push(create_obs[i].text.clone());
+            owner.push((i, "ffsrc"));
+        }
+    }
+    if reqs.is_empty() {
+        return;
+    }
+    let out = run_model_named("gm_c16", &reqs, &rep.workdir, &format!("{}.src", tag));
+    for r in 0..reqs.len() {
+        rep.count(&format!("tie.{}", owner[r].1));
+        if out[r] != want[r] {
+            rep.disagreements_checked += 1;
+            let mut cj = case_json(&cases[owner[r].0]);
+            cj["request"] = json!(reqs[r]);
+            cj["impl"] = json!(want[r]);
+            cj["model"] = json!(out[r]);
+            rep.fail(
+                "disagreement",
+                None,
+                if owner[r].1 == "ffsrc" {
+                    "FileFilter::create on the file differs from FileFilter.createSrc on the text (line splitting / C16_phantom_line no longer transfer)".into()
+                } else {
+                    "the harness' line splitter differs from FileFilter.splitLF/stripCR/realLines".into()
+                },
+                cj,
+            );
+        }
+    }
+}
+
+/// Finding candidate C16-line-after-final-newline, run on the real code as an observation: the
+/// one-line source `// LCOV_EXCL_START\n` with only `--excl-start` removes the record's key 2.
+fn observe_line_after_final_newline(rep: &mut Report, ctx: &Ctx) {
+    let spec = vec![LineSpec { want: [false, true, false, false, false, false], filler: 0, eol: 0 }];
+    let mut cov = CovResult::default();
+    cov.lines.insert(1, 3);
+    cov.lines.insert(2, 5);
+    cov.branches.insert(2, vec![true, false]);
+    let c = text_case(opts_of(0b000010), 0, spec, cov, true, "witness");
+    let name = "after_final_newline.c".to_string();
+    place(&c, &ctx.src_dir.join(&name));
+    let created = observe_create(&ctx.re.filter(&c), &ctx.src_dir.join(&name)).text;
+    let out = rewrite_group(ctx, std::slice::from_ref(&c), &[0], &[name]);
+    let after = parse_cov(&out[0]);
+    let lines = std::str::from_utf8(&c.text).unwrap().lines().count();
+    if created == "L1,L2" && !after.lines.contains_key(&2) && after.branches.contains_key(&2) && lines == 1 {
+        rep.count("candidate.C16-line-after-final-newline.reproduced");
+        rep.notes.push(format!(
+            "finding candidate C16-line-after-final-newline (observation, not counted as a violation): source {:?} has 1 line; --excl-start LCOV_EXCL_START; FileFilter::create = {}; rewrite_paths drops the line count of key 2 ({} -> {}): file_filter.rs 57 splits with split('\\n'), whose last piece after a final newline is numbered n+1",
+            String::from_utf8_lossy(&c.text), created, show_cov(&c.cov), out[0]
+        ));
+    } else {
+        rep.count("candidate.C16-line-after-final-newline.not_reproduced");
+        rep.notes.push(format!("C16-line-after-final-newline no longer reproduces (create = {}, record = {}): C16_phantom_line and the model's splitLF must follow", created, out[0]));
     }
 }
 
@@ -1189,18 +1298,16 @@ fn exhaustive(len: usize, via_rewrite: bool, sink: &mut dyn FnMut(Case)) {
             }
             // vary the line endings with the case number: LF, CRLF, no final newline
             counter += 1;
-            let mode = counter % 3;
+            // LF, CRLF, LF without final newline, CRLF without final newline, lone CR at the end
+            let mode = counter % 5;
             for (j, l) in spec.iter_mut().enumerate() {
+                let last = j + 1 == len;
                 l.eol = match mode {
                     0 => 0,
                     1 => 1,
-                    _ => {
-                        if j + 1 == len {
-                            3
-                        } else {
-                            0
-                        }
-                    }
+                    2 => if last { 3 } else { 0 },
+                    3 => if last { 3 } else { 1 },
+                    _ => if last { 4 } else { 1 },
                 };
             }
             let cov = if via_rewrite {
@@ -1241,7 +1348,7 @@ fn exhaustive_reduced(len: usize, sink: &mut dyn FnMut(Case)) {
             spec.push(LineSpec {
                 want: w,
                 filler: 0,
-                eol: if j + 1 == len { 3 } else { (t % 2) as u8 },
+                eol: if j + 1 == len { [3u8, 0, 1, 4][(t / 2) % 4] } else { (t % 2) as u8 },
             });
         }
         sink(text_case(
@@ -1381,6 +1488,7 @@ pub fn run(rep: &mut Report) {
 
     // ---- witnesses / corpus first --------------------------------------------------------------
     evaluate(rep, &ctx, &witnesses(), "wit");
+    observe_line_after_final_newline(rep, &ctx);
 
     // ---- exhaustive small texts ----------------------------------------------------------------
     {
